@@ -209,6 +209,23 @@ Theorem C18_same_structure_same_enumeration : forall a b,
   forall fuel c n, eval terms dflt (espec cls terms label sem a) fuel c n
                    = eval terms dflt (espec cls terms label sem b) fuel c n.
 Proof. intros a b H. apply same_enumeration; auto. Qed.
+
+(* composition with C01: the CONCLUSION of C01_spec_correct / C01_spec_correct_constructors / the forest
+   pipeline theorems (with enough recursion budget, eval returns the true table T of a class at every size)
+   is inherited by the reloaded specification, for the same classes, sizes and budgets - "counts the same"
+   is thus "counts CORRECTLY whenever the original did", without re-examining the reloaded rules *)
+Theorem C18_roundtrip_still_correct : forall s (T : nat -> Z -> terms) c,
+  spec_wf s ->
+  (forall n, 0 <= n -> exists f0, forall f, (f0 <= f)%nat ->
+     eval terms dflt (espec cls terms label sem s) f c n = T c n) ->
+  exists s', spec_of_json (json_of_spec s) = Ok s' /\
+    forall n, 0 <= n -> exists f0, forall f, (f0 <= f)%nat ->
+      eval terms dflt (espec cls terms label sem s') f c n = T c n.
+Proof.
+  intros s T c Hwf Hc. destruct (C18_roundtrip_same_enumeration s Hwf) as (s' & Hr & _ & _ & He).
+  exists s'. split; [exact Hr|]. intros n Hn. destruct (Hc n Hn) as (f0 & Hf0).
+  exists f0. intros f Hf. rewrite He. exact (Hf0 f Hf).
+Qed.
 End Enumeration.
 
 (* per-rule observables (get_equation of a rule, formal_step, constructor, shifts ..): any function
@@ -749,6 +766,25 @@ Example C18_roundtrip_same_enumeration_values :
   eval Z 0 (espec Z Z Enum.label Enum.sem Enum.s_a4) 5 2%nat 0 = 4 /\
   strip_spec Z Audit.s_a <> Audit.s_a.
 Proof. vm_compute. repeat split; try reflexivity. discriminate. Qed.
+(* covers C18_roundtrip_still_correct: the original s_a evaluates its root (label 2) to the table
+   "3 objects of size 0, none of any other size" at EVERY size; hence so does what the reload returns *)
+Example C18_roundtrip_still_correct_nonvacuous :
+  exists s',
+    spec_of_json Z Z.eqb Example.of_json Example.is_empty Example.cat_of Example.user_from_dict
+                 Example.decomp Audit.rev Audit.cap (json_of_spec Z Example.to_json Example.cat_of Audit.s_a) = Ok s' /\
+    forall n, 0 <= n -> exists f0, forall f, (f0 <= f)%nat ->
+      eval Z 0 (espec Z Z Enum.label Enum.sem s') f 2%nat n = (fun (_ : nat) m => if m =? 0 then 3 else 0) 2%nat n.
+Proof.
+  apply (C18_roundtrip_still_correct Z Z.eqb Audit.eqb_spec Example.to_json Example.of_json Audit.codec
+           Example.is_empty Example.cat_of Example.user_from_dict Example.decomp Audit.rev Audit.cap
+           Z 0 Enum.label Enum.sem Enum.sem_settings Enum.sem_extensional Audit.s_a
+           (fun (_ : nat) m => if m =? 0 then 3 else 0) 2%nat Audit.s_a_wf).
+  intros n Hn. exists 2%nat. intros f Hf.
+  destruct f as [|[|f]]; [inversion Hf|inversion Hf as [|k Hk]; inversion Hk|].
+  destruct (n =? 0) eqn:E0.
+  - apply Z.eqb_eq in E0. subst n. vm_compute. reflexivity.
+  - destruct n as [|p|p]; [discriminate E0|vm_compute; reflexivity|exfalso; apply Hn; reflexivity].
+Qed.
 (* covers C18_same_structure_same_enumeration (a second round trip: strip of strip) and
    C18_roundtrip_same_rule_observables (the observable: the weight of the rule's strategy) *)
 Example C18_same_structure_same_enumeration_nonvacuous :
@@ -784,6 +820,7 @@ Print Assumptions C18_constructed_spec_roundtrip.
 Print Assumptions C18_bijection_roundtrip.
 Print Assumptions C18_roundtrip_same_enumeration.
 Print Assumptions C18_same_structure_same_enumeration.
+Print Assumptions C18_roundtrip_still_correct.
 Print Assumptions C18_roundtrip_same_rule_observables.
 Print Assumptions C18_decimal_keys.
 
